@@ -707,6 +707,7 @@ pub fn run(tier: Tier) {
     let mut ctx = Ctx::new("C02", tier);
     one_variant::<V512>(&mut ctx, tier);
     one_variant::<V1024>(&mut ctx, tier);
+    crate::e5::run_part(&mut ctx, "verify");
     ctx.sample(json!({"n":512,"s2":"1*X^0","s1":"sparse with squared norm floor(beta^2)-1 = 34034725","expected":"accept (total = floor(beta^2))"}));
     ctx.sample(json!({"n":1024,"s2":"canonical body, last coefficient's unary run extended by 512 zeros","expected":"reject (value changes by 65536)"}));
     ctx.assume("compositional argument: C14 decides the hash, C07 the decoder, C11+C12 the transform pipeline for all inputs; the triples here pin down the glue (centred range, bound constant, comparison operator, accumulation width)");
@@ -715,6 +716,9 @@ pub fn run(tier: Tier) {
 }
 
 pub fn replay(case: &Value) -> Result<Option<String>, String> {
+    if case.get("kind").and_then(|k| k.as_str()) == Some("e5") {
+        return crate::e5::replay(case);
+    }
     let variant = case.get("variant").and_then(|x| x.as_u64()).ok_or("variant")? as usize;
     let hx = |k: &str| case.get(k).and_then(|x| x.as_str()).map(unhex).ok_or(format!("missing {}", k));
     let t = Triple { n: variant, msg: hx("msg")?, sig: hx("sig")?, pk: hx("pk")?, expect: None, tag: "replay".into() };
